@@ -226,6 +226,12 @@ func RunInBubble(t *rapid.T, p Program) (res Result, bubbleFailure string) {
 		}
 	}()
 	rt.Describe(p.String())
+	if !p.Long {
+		// (a case of a few dozen steps takes milliseconds; programs that warm a lane up with thousands of tasks are
+		// left out: on a loaded machine they may run for a while, with goroutines that are legitimately busy)
+		rt.InBubble(true)
+		defer rt.InBubble(false)
+	}
 	rapid.SyncTest(t, func(t *rapid.T) {
 		res = Run(p)
 	})
